@@ -207,6 +207,15 @@ def part_boundary(ctx):
             one_case(ctx, prior_seed, s, data, bytes if (s + e) % 2 else bytearray, origin)
     ctx.hyp('boundary', st.tuples(st.binary(min_size=24, max_size=24), st.binary(min_size=4, max_size=4)),
             body, max_examples=3 if ctx.quick else 12)
+    # lengths at the sizes other PICO-8 memory images have (whole cart ROM 0x8000, 64 KiB address space): whatever
+    # the start address, a write passing 0x4300 is rejected
+    k = 0
+    for n in (0x4300, 0x4301, 0x7fff, 0x8000, 0x8001, 0x8005, 0x10000, 0x10001):
+        for s in (0, 1, 0x2000, 0x4200, 0x42ff, 0x4300):
+            k += 1
+            prior = expand(b'rom%d' % k, 24)
+            one_case(ctx, prior, s, expand(b'romdata%d' % k, n), bytes if k % 2 else bytearray,
+                     ORIGINS[k % 4] if k % 3 == 0 else 'inplace')
 
 
 @st.composite
@@ -219,7 +228,10 @@ def random_write(draw):
         s = draw(st.integers(END - 40, END + 40))
     else:
         s = draw(st.integers(0, END - 1))
-    n = draw(st.one_of(st.integers(0, 8), st.integers(0, 300), st.integers(0, END + 10)))
+    n = draw(st.one_of(st.integers(0, 8), st.integers(0, 300), st.integers(0, END + 10),
+                       st.sampled_from([0x7fff, 0x8000, 0x8001, 0x10000])))
+    if n >= 0x7fff and draw(st.booleans()):
+        s = 0
     if kind != 'over' and draw(st.booleans()):
         # end exactly on some boundary
         ends = [b for b in cartgen.BOUNDARIES if b >= s]
